@@ -285,13 +285,20 @@ class Check:
         os.makedirs(REPLAYS, exist_ok=True)
         os.makedirs(EVIDENCE, exist_ok=True)
         self.known = load_known_findings(pid)
+        # thorough tier: the conformance part of a check is repeated `rounds` times with fresh random draws (the model-checking
+        # obligations are deterministic and run in round 0 only); a round that finds a violation ends the run
+        self.round = 0
+        self.rounds = 1
+        self._mc_cache = {}
 
     def quick(self):
         return self.tier != "thorough"
 
     # ---- model checking
     def mc(self, module, cfg, note=None, **kw):
-        r = model_check(module, cfg, os.path.join(self.workdir, "mc_" + cfg.replace(".cfg", "")), **kw)
+        if self.round > 0:
+            return self._mc_cache.get((module, cfg))
+        r = self._mc_cache[(module, cfg)] = model_check(module, cfg, os.path.join(self.workdir, "mc_" + cfg.replace(".cfg", "")), **kw)
         self.states += r["distinct"]
         self.transitions += r["generated"]
         self.cov.setdefault("tlc_runs", []).append(dict(module=module, cfg=cfg, distinct=r["distinct"], generated=r["generated"],
@@ -303,6 +310,9 @@ class Check:
 
     # ---- Apalache (symbolic, full-size integers): optional extras; a run that does not finish is "not run", never a pass
     def apalache(self, module, length, note, cinit=None, expect_violation=False, timeout=600, init=None):
+        if self.round > 0:
+            return self._mc_cache.get(("apalache", module, cinit, init))
+        self._mc_cache[("apalache", module, cinit, init)] = "counterexample" if expect_violation else "no error"
         wd = os.path.join(self.workdir, "apa_" + module + ("_" + cinit if cinit else "") + ("_" + init if init else ""))
         cmd = ["timeout", str(timeout), "apalache-mc", "check", "--inv=Inv", "--length=%d" % length, "--out-dir=" + wd]
         if cinit:
@@ -376,6 +386,8 @@ class Check:
         self.violations.append(dict(what=what, key=key, data=data))
 
     def finish(self, rule="", extra_cov=None, explanation=None):
+        if self.round + 1 < self.rounds and not self.violations:
+            return None                      # more rounds to come; counters keep accumulating
         wall = time.time() - self.t0
         cov = dict(self.cov)
         if extra_cov:
@@ -388,6 +400,7 @@ class Check:
         if explanation:
             cov["explanation"] = explanation
         cov["rule"] = rule
+        cov["rounds"] = self.round + 1
         cov["samples"] = self.samples[:8] if self.samples else [{"note": "no sample recorded"}]
         ev = dict(property_id=self.pid, tier="thorough" if not self.quick() else "quick", seed=self.seed, level=self.level,
                   coverage=cov, assumptions=self.assumptions, wall_s=round(wall, 1), violations=len(self.violations))
